@@ -49,6 +49,7 @@ type Contract struct {
 	Pure      bool
 	Loops     map[int]*LoopSpec
 	Calls     []CallSpec
+	Preserves []PreserveSpec
 	Assumes   []Clause
 	Hints     []Clause
 	Ghosts    []GhostDecl
@@ -69,6 +70,14 @@ type Def struct {
 	Params []string
 	Body   *SExpr
 	Src    string
+}
+
+// PreserveSpec: an ASSUMED frame for calls matching Sel (listed as an assumption).
+type PreserveSpec struct {
+	Sel     string
+	Targets []*SExpr
+	Reason  string
+	Src     string
 }
 
 type GhostDecl struct {
@@ -371,6 +380,30 @@ func ParseContracts(pkgPath, file string, text string) ([]*Contract, []*Def, err
 				return nil, nil, fail(d, err)
 			}
 			cur.Calls = append(cur.Calls, CallSpec{Sel: f[0], Cl: cl})
+		case "call-preserves":
+			// call-preserves <sel> : <lvalues> because "reason"
+			txt := d.text
+			reason := ""
+			if j := strings.LastIndex(txt, " because \""); j >= 0 && strings.HasSuffix(txt, "\"") {
+				reason = txt[j+10 : len(txt)-1]
+				txt = strings.TrimSpace(txt[:j])
+			}
+			j := strings.Index(txt, ":")
+			if j < 0 || reason == "" {
+				return nil, nil, fail(d, fmt.Errorf("call-preserves <selector> : <locations> because \"reason\""))
+			}
+			psp := PreserveSpec{Sel: strings.TrimSpace(txt[:j]), Reason: reason, Src: d.text}
+			for _, part := range splitTop(txt[j+1:], ',') {
+				if part == "" {
+					continue
+				}
+				e, err := ParseSpec(strings.ReplaceAll(part, "[*]", "[0:]"))
+				if err != nil {
+					return nil, nil, fail(d, err)
+				}
+				psp.Targets = append(psp.Targets, e)
+			}
+			cur.Preserves = append(cur.Preserves, psp)
 		case "never":
 			f := strings.SplitN(d.text, " ", 3)
 			cs := CallSpec{Sel: f[0], Never: true, Cl: Clause{Label: label, Line: d.line, Src: "never " + d.text}}
